@@ -420,7 +420,8 @@ func ConvertToJSON(val lua.LValue) string {
 		tbl.ForEach(cb)
 		return start + strings.Join(values, `,`) + end
 	}
-	return "Unsupported lua type: " + val.Type().String()
+	// functions and the like: still one JSON value
+	return jsonString("Unsupported lua type: " + val.Type().String())
 }
 
 // The EVAL variant a script runs under is kept in the interpreter's
